@@ -12,6 +12,7 @@ STATICS = [
     [['href', 'x?a=1&amp;b=2', '"'], ['CHECKED', 'yes', "'"], ['id', 'i1', '"']],
     [['class', 's1', ''], ['id', 'i1', '"']],                  # an unquoted static attribute
     [['id', 'i1', '"'], ['k', None, None], ['checked', None, None]],   # valueless static attributes
+    [['href', '${iv}/p', '"'], ['title', "a ${iv}", "'"], ['id', 'i1', '"']],   # static attributes with ${...}
 ]
 
 
@@ -88,11 +89,11 @@ def plan(tier, seed):
                    'chameleon.compiler:Compiler.visit_Attribute', 'chameleon.compiler:Compiler.visit_DictAttributes',
                    'chameleon.compiler:emit_bool', 'chameleon.compiler:emit_func_convert_and_escape',
                    'chameleon.zpt.template:PageTemplate.parse', 'chameleon.tal:split_parts'],
-        bounds=('%d programs: %d static attribute lists (0-3 attributes, mixed case and quoting incl. unquoted, entities in the text) '
+        bounds=('%d programs: %d static attribute lists (0-3 attributes, mixed case and quoting incl. unquoted, entities and ${...} in the text) '
                 'x %d tal:attributes lists (named, other-case names, new names, the same name twice in other case among other names, boolean names, attribute dictionary '
                 'first/last with symbolic key presence) x boolean configurations {HTML default, XML/none, explicit '
                 'empty set, explicit set}, four of them compiled after the same source under another configuration through one on-disk module cache, two as file templates re-cooked after having served a document of the other kind (XML declaration or not); every dynamic value ranges over [None, default, "", 0, False, True, hostile '
-                'str]; what a \';\'-separated argument splits into (tal.split_parts: \';;\' is a literal semicolon, single ones separate, runs of any length) on 5 shapes with 3-4 symbolic code points. Outside: ${} inside static attribute text (C06), more than 3 static attributes, ";;" escapes '
+                'str]; what a \';\'-separated argument splits into (tal.split_parts: \';;\' is a literal semicolon, single ones separate, runs of any length) on 5 shapes with 3-4 symbolic code points. Outside: more than 3 static attributes, ";;" escapes '
                 '(C11 covers split_parts), the output position of names decided by a dictionary (known divergence, '
                 'not asserted).' % (len(jobs), len(STATICS), len(entry_sets()))),
         assumptions=['expected attribute map computed from the property statement (later sources override earlier '
